@@ -511,16 +511,35 @@ func (v *collator_[V]) rankMaps(first ref.Value, second ref.Value) Rank {
 		panic(fmt.Sprintf("The maximum traversal depth was exceeded: %v", v.depth_))
 	}
 
-	// Extract and sort the keys for the two Go maps.
-	var sorter = Sorter[ref.Value]().MakeWithRanker(v.rankValues)
-	var firstKeys = first.MapKeys() // The returned keys are in random order.
-	sorter.SortValues(firstKeys)
-	var secondKeys = second.MapKeys() // The returned keys are in random order.
-	sorter.SortValues(secondKeys)
+	// Extract and sort the associations for the two Go maps.  The values are
+	// read while iterating since a key that is not equal to itself (NaN) cannot
+	// be looked up again.  Associations whose keys are ranked as equal are
+	// ordered by their values.
+	var sorter = Sorter[[2]ref.Value]().MakeWithRanker(
+		func(first, second [2]ref.Value) Rank {
+			var rank = v.rankValues(first[0], second[0])
+			if rank == EqualRank {
+				rank = v.rankValues(first[1], second[1])
+			}
+			return rank
+		},
+	)
+	var firstPairs = make([][2]ref.Value, 0, first.Len())
+	var iterator = first.MapRange() // The associations are in random order.
+	for iterator.Next() {
+		firstPairs = append(firstPairs, [2]ref.Value{iterator.Key(), iterator.Value()})
+	}
+	sorter.SortValues(firstPairs)
+	var secondPairs = make([][2]ref.Value, 0, second.Len())
+	iterator = second.MapRange() // The associations are in random order.
+	for iterator.Next() {
+		secondPairs = append(secondPairs, [2]ref.Value{iterator.Key(), iterator.Value()})
+	}
+	sorter.SortValues(secondPairs)
 
 	// Determine the smallest Go map.
-	var firstSize = len(firstKeys)
-	var secondSize = len(secondKeys)
+	var firstSize = len(firstPairs)
+	var secondSize = len(secondPairs)
 	if firstSize > secondSize {
 		// Swap the order of the Go maps and reverse the result.
 		switch v.rankMaps(second, first) {
@@ -538,8 +557,8 @@ func (v *collator_[V]) rankMaps(first ref.Value, second ref.Value) Rank {
 		v.depth_++
 
 		// Rank the two keys.
-		var firstKey = firstKeys[i]
-		var secondKey = secondKeys[i]
+		var firstKey = firstPairs[i][0]
+		var secondKey = secondPairs[i][0]
 		var keyRank = v.rankValues(firstKey, secondKey)
 		if keyRank != EqualRank {
 			// The two keys are different.
@@ -548,8 +567,8 @@ func (v *collator_[V]) rankMaps(first ref.Value, second ref.Value) Rank {
 		}
 
 		// The two keys match so rank the corresponding values.
-		var firstValue = first.MapIndex(firstKey)
-		var secondValue = second.MapIndex(secondKey)
+		var firstValue = firstPairs[i][1]
+		var secondValue = secondPairs[i][1]
 		var valueRank = v.rankValues(firstValue, secondValue)
 		if valueRank != EqualRank {
 			// The two values are different.
